@@ -2,7 +2,7 @@
 from __future__ import annotations
 
 import operator
-from decimal import Decimal, getcontext
+from decimal import Decimal
 from fractions import Fraction
 
 from .. import core, kit, model, oracle
@@ -23,7 +23,6 @@ ASSUMPTIONS = [
     "division by a zero measurand and 0**negative are outside the statement (the measurand itself is undefined)",
 ]
 SHARDS = {"quick": 4, "thorough": 14}
-getcontext().prec = 60
 R9 = Fraction(1, 10**9)
 TOL = Fraction(1, 100000)
 
